@@ -523,7 +523,8 @@ func c17R6(c *Ctx) {
 					if !isR || len(r.Results) == 0 {
 						return false
 					}
-					return !c.definitelyNonNilErr(r.Results[len(r.Results)-1], in.Block(), nil)
+					_ = r
+					return c.maySucceed(in)
 				}, func(in ssa.Instruction) bool {
 					s2, isS := in.(*ssa.Store)
 					if !isS {
